@@ -387,14 +387,14 @@ def reason(status: int) -> bytes:
     return {200: b"OK", 204: b"No Content", 301: b"Moved Permanently", 302: b"Found", 303: b"See Other", 304: b"Not Modified", 307: b"Temporary Redirect", 308: b"Permanent Redirect", 403: b"Forbidden", 407: b"Proxy Authentication Required", 413: b"Payload Too Large", 429: b"Too Many Requests", 500: b"Internal Server Error", 502: b"Bad Gateway", 503: b"Service Unavailable"}.get(status, b"Status")
 
 
-def chunked(body: bytes, sizes: typing.Sequence[int] = (), ext: bytes = b"", trailers: bytes = b"") -> bytes:
+def chunked(body: bytes, sizes: typing.Sequence[int] = (), ext: bytes = b"", trailers: bytes = b"", fmt: bytes = b"%x") -> bytes:
     out = bytearray()
     pos = 0
     i = 0
     while pos < len(body):
         n = sizes[i % len(sizes)] if sizes else len(body) - pos
         n = max(1, min(n, len(body) - pos))
-        out += b"%x" % n + ext + b"\r\n" + body[pos : pos + n] + b"\r\n"
+        out += fmt % n + ext + b"\r\n" + body[pos : pos + n] + b"\r\n"
         pos += n
         i += 1
     out += b"0\r\n" + trailers + b"\r\n"
